@@ -1,7 +1,7 @@
 //! lab — one uniform, byte-level view of the real public API of all six backends.
 //! Every function runs under `catch_unwind`; results are `Ok(bytes)` / `Err(kind)` / `Err("panic")`.
 //! Keys go in as raw key bytes (the same bytes `KeyText::from_raw_bytes` takes), tokens as strings.
-use crate::impls::{err_name, Raw, V1, V2, V3, V3L, V4, V4S};
+use crate::impls::{err_name, Raw, RawX, V1, V2, V3, V3L, V4, V4S};
 use paseto_core::key::{HasKey, Key};
 use paseto_core::paserk::KeyText;
 use paseto_core::tokens::{SealedToken, UnsealedToken};
@@ -69,6 +69,10 @@ pub struct Backend {
     pub key_roundtrip: fn(&str, &[u8]) -> R<Vec<u8>>,
     /// LocalKey::from([u8;32]) -> bytes
     pub local_from_array: fn([u8; 32]) -> R<Vec<u8>>,
+    /// the same with a payload type whose SUFFIX is "x": (purpose, sealing key bytes, m, f, a) -> token string
+    pub seal_x: fn(&str, &[u8], &[u8], &[u8], &[u8]) -> R<String>,
+    /// (purpose, unsealing key bytes, token, a) -> (claims, footer)
+    pub unseal_x: fn(&str, &[u8], &str, &[u8]) -> R<(Vec<u8>, Vec<u8>)>,
     /// PASERK.  kind: "local" | "secret"
     pub pie_wrap: fn(&str, &[u8], &[u8]) -> R<String>,
     pub pie_unwrap: fn(&str, &[u8], &str) -> R<Vec<u8>>,
@@ -164,6 +168,28 @@ macro_rules! backend {
         }
         fn local_from_array(b: [u8; 32]) -> R<Vec<u8>> {
             guard(|| Ok(key_bytes(&paseto_core::LocalKey::<$V>::from(b))))
+        }
+        fn seal_x(purpose: &str, key: &[u8], m: &[u8], f: &[u8], a: &[u8]) -> R<String> {
+            let local = purpose == "local";
+            guard(|| {
+                Ok(if local {
+                    UnsealedToken::<$V, Local, RawX>::new(RawX(m.to_vec())).with_footer(f.to_vec()).seal(&key_from::<$V, Local>(key)?, a)?.to_string()
+                } else {
+                    UnsealedToken::<$V, Public, RawX>::new(RawX(m.to_vec())).with_footer(f.to_vec()).seal(&key_from::<$V, Secret>(key)?, a)?.to_string()
+                })
+            })
+        }
+        fn unseal_x(purpose: &str, key: &[u8], tok: &str, a: &[u8]) -> R<(Vec<u8>, Vec<u8>)> {
+            let local = purpose == "local";
+            guard(|| {
+                if local {
+                    let u = SealedToken::<$V, Local, RawX, Vec<u8>>::from_str(tok)?.unseal(&key_from::<$V, Local>(key)?, a, &NoValidation::dangerous_no_validation())?;
+                    Ok((u.claims.0, u.footer))
+                } else {
+                    let u = SealedToken::<$V, Public, RawX, Vec<u8>>::from_str(tok)?.unseal(&key_from::<$V, Public>(key)?, a, &NoValidation::dangerous_no_validation())?;
+                    Ok((u.claims.0, u.footer))
+                }
+            })
         }
         fn pie_wrap(kind: &str, wk: &[u8], key: &[u8]) -> R<String> {
             let kind = kind.to_string();
@@ -276,6 +302,8 @@ macro_rules! backend {
             public_of_secret,
             key_roundtrip,
             local_from_array,
+            seal_x,
+            unseal_x,
             pie_wrap,
             pie_unwrap,
             pw_wrap,
